@@ -27,6 +27,9 @@ def run(ctx) -> None:
     jsonrules.rule_K3b(ctx)     # the Timestamp text at distinguished microsecond values: 0 / 3 / 6 zero-padded digits
     jsonrules.rule_J1(ctx)
     jsonrules.rule_J6(ctx)
+    from .c19 import rule_K6
+    ctx.rules_run.append("K6")
+    rule_K6(ctx)                # camelCase keys: only the first character is lower-cased
     ctx.rules_run += ["J8"]
     jsonrules.rule_J8(ctx)      # an enum number without a member is emitted as the number (the reference reads null as 0)
     from .c15 import rule_Q7
